@@ -247,6 +247,10 @@ func init() {
 						}
 					}
 					oname := fmt.Sprintf("%s/operator-alloc:%s", name, typeTagName(t))
+					if !hasLevel && g.inlined[name] && g.callersHaveLevel(fn, 0) {
+						// a helper verified as part of its callers, all of which carry a level contract
+						hasLevel = true
+					}
 					if hasLevel {
 						res.discharged++
 						if len(res.samples) < 4 {
@@ -343,4 +347,46 @@ func (g *Gen) printerShape() []*catOblig {
 		}
 	}
 	return obs
+}
+
+// callersHaveLevel: every function of the module that calls fn statically has a [C07] level clause
+// (or is itself verified inlined into callers that have one).
+func (g *Gen) callersHaveLevel(fn *ssa.Function, depth int) bool {
+	if depth > 3 {
+		return false
+	}
+	found := false
+	for _, name := range sortedKeys(g.funcs) {
+		caller := g.funcs[name]
+		if caller == fn || len(caller.Blocks) == 0 {
+			continue
+		}
+		calls := false
+		for _, b := range caller.Blocks {
+			for _, in := range b.Instrs {
+				if ci, ok := in.(ssa.CallInstruction); ok && ci.Common().StaticCallee() == fn {
+					calls = true
+				}
+			}
+		}
+		if !calls {
+			continue
+		}
+		found = true
+		ok := false
+		if c := g.cs.Funcs[name]; c != nil && !g.inlined[name] {
+			for _, e := range c.Ensures {
+				if e.Label == "level" && hasTag(c.tagsFor(e), "C07") {
+					ok = true
+				}
+			}
+		}
+		if !ok && g.inlined[name] && g.callersHaveLevel(caller, depth+1) {
+			ok = true
+		}
+		if !ok {
+			return false
+		}
+	}
+	return found
 }
